@@ -44,9 +44,10 @@ class SymF:
     |IEEE value - t| (running rounding-error bound); [lo,hi]: sound interval of the IEEE value;
     ex: None, or e >= 0 such that t * 2^e is integer valued (a dyadic rational); ex is only
     used to prove the *next* operation exact, so it is meaningful only together with err == 0."""
-    __slots__ = ('t', 'lo', 'hi', 'ex', 'err')
-    def __init__(s, t, lo, hi, ex, err=Fraction(0)):
+    __slots__ = ('t', 'lo', 'hi', 'ex', 'err', 'sx')
+    def __init__(s, t, lo, hi, ex, err=Fraction(0), sx=False):
         s.t = t; s.lo = lo; s.hi = hi; s.err = err
+        s.sx = sx        # sign-exact: the IEEE value is <0, ==0, >0 exactly when t is (even though err > 0)
         s.ex = (0 if ex is True else (None if ex is False else ex))
     def __repr__(s): return 'SymF(%s,[%s,%s],ex=%s,err=%g)' % (s.t, float(s.lo), float(s.hi), s.ex, float(s.err))
 
@@ -86,6 +87,12 @@ class SymI:
     __slots__ = ('t', 'lo', 'hi', 'bits')
     def __init__(s, t, lo, hi, bits): s.t = t; s.lo = lo; s.hi = hi; s.bits = bits
     def __repr__(s): return 'SymI(%s)' % s.t
+
+class SymSgn:
+    """result of a bitwise and/or/xor of symbolic ints of which only the sign bit is tracked (clang folds
+    conjunctions of sign tests into such operations); neg: z3 Bool 'value is negative'"""
+    __slots__ = ('neg', 'bits', 'zero')
+    def __init__(s, neg, bits, zero=None): s.neg = neg; s.bits = bits; s.zero = zero   # zero: z3 Bool 'value == 0' or None
 
 class Part:
     """one byte of a non-splittable value stored in memory"""
@@ -178,6 +185,7 @@ class Machine:
         s.nl = False
         s.last_solver = s.solver
         s.band_memo = {}
+        s.btrace = []
         s.band_strict = []
         s.max_steps = s.opts.get('max_steps', 30000000)
         s.called = set()
@@ -574,6 +582,7 @@ class Machine:
         if isinstance(v, SymB): return 1 if s.decide(v) else 0
         if not isinstance(v, SymI): return v
         s.stats['int_concretized'] += 1
+        if v.hi - v.lo > 4096: raise ExecError('refusing to enumerate a symbolic int with %d possible values' % (v.hi - v.lo + 1))
         for _ in range(4096):
             # propose the value this path will take: replay prefix decides; otherwise ask the solver
             k = len(s.decisions)
@@ -647,6 +656,14 @@ class Machine:
                 if op == 'frem': return math.fmod(a, b)
             except OverflowError:
                 return float('inf')
+        if op in ('fadd', 'fsub'):
+            # absorption: a concrete value of magnitude >= 2^1000 plus/minus anything below 2^900 rounds back to itself
+            for big, small, keep in ((a, b, True), (b, a, op == 'fadd')):
+                if isinstance(big, float) and isinstance(small, SymF) and (abs(big) >= 2.0 ** 1000 or big != big):
+                    if big != big or abs(big) == INF: return big if keep else -big
+                    if max(abs(small.lo), abs(small.hi)) < 2 ** 900:
+                        s.stats['fp_absorbed'] += 1
+                        return big if keep else -big
         A = s.asF(a); B = s.asF(b)
         both = A.ex is not None and B.ex is not None
         if op == 'fadd':
@@ -683,7 +700,12 @@ class Machine:
                 elif A.ex is not None and fb.denominator == 1 and (abs(fb.numerator) & (abs(fb.numerator) - 1)) == 0:
                     ex = A.ex + abs(fb.numerator).bit_length() - 1
             else: s.stats['nonlin_div'] += 1; s.nl = True
-            return s.mk(A.t / B.t, min(c), max(c), ex, perr)
+            r = s.mk(A.t / B.t, min(c), max(c), ex, perr)
+            # exact dyadic numerator k*2^-e (|k|>=1 or 0) over an exact divisor bounded by M: the correctly rounded
+            # quotient is 0 iff the numerator is 0 and otherwise far above the underflow threshold -> same sign as t
+            if A.err == 0 and B.err == 0 and A.ex is not None and A.ex <= 200 and max(abs(B.lo), abs(B.hi)) < 2 ** 600:
+                r.sx = True
+            return r
         raise ExecError('fbin ' + op)
 
     def fcmp(s, pred, a, b):
@@ -695,6 +717,14 @@ class Machine:
             r = {'eq': a == b, 'ne': a != b, 'gt': a > b, 'ge': a >= b, 'lt': a < b, 'le': a <= b}[base]
             if pred[0] == 'o': return int(r and not uno)
             return int(r or uno)
+        for x_, y_, flip in ((a, b, False), (b, a, True)):
+            if isinstance(x_, float) and (x_ != x_ or abs(x_) == INF):
+                # concrete NaN / infinity against a finite symbolic value
+                if x_ != x_: return int(pred[0] == 'u' or pred == 'uno') if pred not in ('ord',) else 0
+                if pred == 'ord': return 1
+                if pred == 'uno': return 0
+                gt = (x_ > 0) != flip          # is a > b ?
+                return int({'eq': False, 'ne': True, 'gt': gt, 'ge': gt, 'lt': not gt, 'le': not gt}[pred[1:]])
         A = s.asF(a); B = s.asF(b)
         if pred == 'ord': return 1
         if pred == 'uno': return 0
@@ -709,6 +739,10 @@ class Machine:
         if base == 'eq' and (A.hi < B.lo or A.lo > B.hi): return 0
         if base == 'ne' and (A.hi < B.lo or A.lo > B.hi): return 1
         sl = A.err + B.err
+        if sl != 0 and ((A.sx and isinstance(b, float) and b == 0.0) or (B.sx and isinstance(a, float) and a == 0.0)):
+            s.stats['sign_exact_cmp'] += 1
+            d = A.t - B.t
+            return SymB({'eq': d == 0, 'ne': d != 0, 'gt': d > 0, 'ge': d >= 0, 'lt': d < 0, 'le': d <= 0}[base])
         # syntactic cancellation: identical / numerically constant difference decides without the solver
         dc = None
         if A.t.eq(B.t): dc = Fraction(0)
@@ -966,7 +1000,9 @@ def h_br(s, fr, ins):
     if ins.cond is None: s.jump(fr, ins.target)
     else:
         c = s.opv(fr, ins.cond)
-        s.jump(fr, ins.target if s.truth(c) else ins.target2)
+        tk = s.truth(c)
+        if s.opts.get('trace_branches'): s.btrace.append((fr.fn.name, fr.fn.blocks[fr.bi][0], tk, str(c)[:300] if not isinstance(c, int) else c))
+        s.jump(fr, ins.target if tk else ins.target2)
 
 def h_switch(s, fr, ins):
     v = s.concretize(s.opv(fr, ins.val))
@@ -1071,6 +1107,16 @@ def h_bin(s, fr, ins):
         def tb(x):
             if isinstance(x, SymB): return x
             return b_const(x & 1)
+        if op in ('or', 'xor') and bits > 1 and ((isinstance(a, int) and a > 1) or (isinstance(b, int) and b > 1)):
+            # a widened (0/1-valued) symbolic boolean combined with a constant that has other bits set
+            cst, sb = (a, b) if isinstance(a, int) else (b, a)
+            if not sb.exact(): sb = b_const(s.decide(sb))
+            v1 = sgn((cst | 1) if op == 'or' else (cst ^ 1), bits); v0 = sgn(cst, bits)
+            if v1 == v0: r = cst
+            else:
+                mk_ = z3.RealVal if s.opts.get('relax_int') else z3.IntVal
+                r = SymI(z3.If(sb.t, mk_(v1), mk_(v0)), min(v0, v1), max(v0, v1), bits)
+            fr.regs[ins.res] = r; fr.ii += 1; return
         if op in ('and', 'or', 'xor') and (isinstance(a, SymB) or isinstance(b, SymB)):
             # short-circuit with concrete
             if op == 'and' and ((isinstance(a, int) and a & 1 == 0) or (isinstance(b, int) and b & 1 == 0)): r = 0
@@ -1081,6 +1127,27 @@ def h_bin(s, fr, ins):
                 elif op == 'or': r = b_or(X, Y)
                 else: r = b_or(b_and(X, b_not(Y)), b_and(b_not(X), Y))
             fr.regs[ins.res] = r; fr.ii += 1; return
+    if op in ('and', 'or', 'xor') and bits > 1 and (isinstance(a, (SymI, SymSgn)) or isinstance(b, (SymI, SymSgn))) \
+            and isinstance(a, (SymI, SymSgn, int)) and isinstance(b, (SymI, SymSgn, int)):
+        def ng(x):
+            if isinstance(x, SymSgn): return x.neg
+            if isinstance(x, SymI): return x.t < 0
+            return z3.BoolVal(sgn(x, bits) < 0)
+        def zr(x):
+            if isinstance(x, SymSgn): return x.zero
+            if isinstance(x, SymI): return x.t == 0
+            return z3.BoolVal(x == 0)
+        A = ng(a); B = ng(b)
+        r = z3.And(A, B) if op == 'and' else (z3.Or(A, B) if op == 'or' else z3.Xor(A, B))
+        zz = None
+        if op == 'or' and zr(a) is not None and zr(b) is not None: zz = z3.And(zr(a), zr(b))
+        elif op == 'xor' and isinstance(a, (SymI, int)) and isinstance(b, (SymI, int)):
+            ta = a.t if isinstance(a, SymI) else sgn(a, bits); tb = b.t if isinstance(b, SymI) else sgn(b, bits)
+            zz = ta == tb
+        fr.regs[ins.res] = SymSgn(r, bits, zz); fr.ii += 1; return
+    if op == 'lshr' and isinstance(a, (SymI, SymSgn)) and b == bits - 1:
+        fr.regs[ins.res] = SymB(a.neg if isinstance(a, SymSgn) else a.t < 0); fr.ii += 1; return
+    if isinstance(a, SymSgn) or isinstance(b, SymSgn): raise ExecError('unsupported use of a sign-only symbolic value in ' + op)
     if isinstance(a, (SymI, int)) and isinstance(b, (SymI, int)) and op in ('add', 'sub', 'mul'):
         def ti(x):
             if isinstance(x, SymI): return x
@@ -1116,7 +1183,7 @@ def h_fneg(s, fr, ins):
     a = s.opv(fr, ins.a, ins.ty)
     if isinstance(a, float): r = -a
     else:
-        A = s.asF(a); r = SymF(-A.t, -A.hi, -A.lo, A.ex, A.err)
+        A = s.asF(a); r = SymF(-A.t, -A.hi, -A.lo, A.ex, A.err, A.sx)
     fr.regs[ins.res] = r; fr.ii += 1
 
 def h_icmp(s, fr, ins):
@@ -1135,14 +1202,40 @@ def h_icmp(s, fr, ins):
             bits = ins.oty.bits; a = sgn(a, bits); b = sgn(b, bits)
         r = {'eq': a == b, 'ne': a != b, 'gt': a > b, 'ge': a >= b, 'lt': a < b, 'le': a <= b}[pred if pred in ('eq', 'ne') else pred[1:]]
         fr.regs[ins.res] = int(r); fr.ii += 1; return
+    if (isinstance(a, SymB) or isinstance(b, SymB)) and ins.oty.bits > 1 \
+            and (pred not in ('eq', 'ne') or isinstance(a, SymI) or isinstance(b, SymI)
+                 or (isinstance(a, int) and a > 1) or (isinstance(b, int) and b > 1)) \
+            and all(isinstance(x, (SymB, int, SymI)) for x in (a, b)):
+        # a widened (zext) symbolic boolean in an ordered comparison: 0/1-valued integer
+        def wi(x):
+            if isinstance(x, SymB):
+                if not x.exact(): x = b_const(s.decide(x))
+                one, zero = ((z3.RealVal(1), z3.RealVal(0)) if s.opts.get('relax_int') else (z3.IntVal(1), z3.IntVal(0)))
+                return SymI(z3.If(x.t, one, zero), 0, 1, ins.oty.bits)
+            return x
+        a = wi(a); b = wi(b)
     if isinstance(a, (SymB,)) or isinstance(b, (SymB,)):
         def tb(x): return x if isinstance(x, SymB) else b_const(x & 1)
         X = tb(a); Y = tb(b)
         xr = b_or(b_and(X, b_not(Y)), b_and(b_not(X), Y))
         if pred == 'ne': r = xr
         elif pred == 'eq': r = b_not(xr)
+        elif pred in ('ult', 'sgt'): r = b_and(b_not(X), Y)      # i1: unsigned 0 < 1 ; signed 0 > -1
+        elif pred in ('ugt', 'slt'): r = b_and(X, b_not(Y))
+        elif pred in ('ule', 'sge'): r = b_or(b_not(X), Y)
+        elif pred in ('uge', 'sle'): r = b_or(X, b_not(Y))
         else: raise ExecError('icmp %s on bools' % pred)
         fr.regs[ins.res] = r; fr.ii += 1; return
+    if isinstance(a, SymSgn) or isinstance(b, SymSgn):
+        bits = ins.oty.bits
+        if isinstance(a, SymSgn) and isinstance(b, int):
+            c = sgn(b, bits)
+            if (pred, c) in (('slt', 0), ('sle', -1)): r = SymB(a.neg)
+            elif (pred, c) in (('sgt', -1), ('sge', 0)): r = SymB(z3.Not(a.neg))
+            elif pred in ('eq', 'ne') and c == 0 and a.zero is not None: r = SymB(a.zero if pred == 'eq' else z3.Not(a.zero))
+            else: raise ExecError('unsupported comparison of a sign-only symbolic value: %s %d' % (pred, c))
+            fr.regs[ins.res] = r; fr.ii += 1; return
+        raise ExecError('unsupported comparison of a sign-only symbolic value')
     if isinstance(a, SymI) or isinstance(b, SymI):
         bits = ins.oty.bits
         def ti(x):
@@ -1150,8 +1243,12 @@ def h_icmp(s, fr, ins):
             return (z3.RealVal if s.opts.get('relax_int') else z3.IntVal)(sgn(x, bits) if pred[0] == 's' or pred in ('eq', 'ne') else x)
         A = ti(a); B = ti(b)
         base = pred if pred in ('eq', 'ne') else pred[1:]
-        if pred[0] == 'u' and ((isinstance(a, SymI) and a.lo < 0) or (isinstance(b, SymI) and b.lo < 0)):
-            raise ExecError('unsigned compare of possibly negative symbolic int')
+        if pred[0] == 'u' and pred not in ('eq', 'ne'):
+            # unsigned view of a possibly negative (two's complement) value: a + 2^bits when a < 0
+            if isinstance(a, SymI) and a.lo < 0: A = z3.If(A >= 0, A, A + (1 << bits))
+            elif isinstance(a, int): A = (z3.RealVal if s.opts.get('relax_int') else z3.IntVal)(a & ((1 << bits) - 1))
+            if isinstance(b, SymI) and b.lo < 0: B = z3.If(B >= 0, B, B + (1 << bits))
+            elif isinstance(b, int): B = (z3.RealVal if s.opts.get('relax_int') else z3.IntVal)(b & ((1 << bits) - 1))
         t = {'eq': A == B, 'ne': A != B, 'gt': A > B, 'ge': A >= B, 'lt': A < B, 'le': A <= B}[base]
         fr.regs[ins.res] = SymB(t); fr.ii += 1; return
     if a is UNDEF or b is UNDEF or isinstance(a, PU) or isinstance(b, PU):
@@ -1378,6 +1475,11 @@ def x_nondet_int(s, fr, ins, a):
     return SymI(v, lo, hi, 32)
 def x_int_in(s, fr, ins, a):
     lo = sgn(a[0], 32); hi = sgn(a[1], 32)
+    fx = s.opts.get('fixed_inputs')
+    if fx is not None:
+        v = int(fx[len(s.inputs)]); s.inputs.append(('in%d' % len(s.inputs), z3.IntVal(v), 'choice'))
+        if not (lo <= v <= hi): raise PathEnd('assume_false')
+        return v & 0xffffffff
     v = s.fresh_input('int'); s.add_pc(z3.And(v >= lo, v <= hi))
     return SymI(v, lo, hi, 32)
 def x_double_in(s, fr, ins, a):
@@ -1387,6 +1489,9 @@ def x_double_in(s, fr, ins, a):
 def x_choice(s, fr, ins, a):
     """unconstrained choice in [0,n): a pure fork (no solver variable: the path condition stays purely real)"""
     n = sgn(a[0], 32)
+    fx = s.opts.get('fixed_inputs')
+    if fx is not None:
+        c = int(fx[len(s.inputs)]); s.inputs.append(('in%d' % len(s.inputs), z3.IntVal(c), 'choice')); return c
     c = n - 1
     for i in range(n - 1):
         if s.decide_free(): c = i; break
@@ -1414,9 +1519,14 @@ def x_assert(s, fr, ins, a):
     if isinstance(c, (SymB, SymI)):
         t = c.t if isinstance(c, SymB) else c.t != 0
         must = c.must if isinstance(c, SymB) else t
+        s.last_assert_t = t
         s.stats['assert_queries'] += 1
         if s.check(z3.Not(must)):
+            if os.environ.get('IRSYM_DEBUG'): print('DEBUG candidate for', msg, flush=True)
             m = s.int_model(z3.Not(must))
+            if os.environ.get('IRSYM_DEBUG'):
+                print('DEBUG   integer model', [str(x[2]) for x in m] if m else None, flush=True)
+                if os.environ.get('IRSYM_DEBUG') == '2': print('DEBUG   formula', t, '\nPC', s.pc, flush=True)
             if m is not None:
                 band = isinstance(c, SymB) and not c.exact() and not s.check(z3.Not(t))
                 s.violations.append(('assert-band' if band else 'assert', msg, '', m))
@@ -1427,7 +1537,10 @@ def x_assert(s, fr, ins, a):
         if m is None: raise PathEnd('infeasible_over_integers')
         s.violations.append(('assert', msg, '', m))
     return None
-def x_out(s, fr, ins, a): s.outputs.append(a[0]); return None
+def x_out(s, fr, ins, a):
+    v = a[0]
+    if isinstance(v, int) and not isinstance(v, bool) and ins.callee.v == '@verif_out_int': v = sgn(v, 32)
+    s.outputs.append(v); return None
 def x_assert_fail(s, fr, ins, a):
     raise Violation('assertion', 'library assertion failed: %s (%s:%s)' % (s.cstring(a[0]), s.cstring(a[1]), a[2]))
 def x_abort(s, fr, ins, a): raise Violation('abort', 'abort() called')
